@@ -41,10 +41,24 @@ class _Continue(BaseException):
 
 
 _src_cache = {}
+GENERATED = {}  # id(code object) -> (code object, FunctionDef node) for run-time generated functions
+
+
+def register_generated(module_ast, code):
+    """remember the AST a run-time `compile()` call was given, per function code object"""
+    import types as _t
+
+    defs = {n.name: n for n in module_ast.body if isinstance(n, ast.FunctionDef)}
+    for const in code.co_consts:
+        if isinstance(const, _t.CodeType) and const.co_name in defs:
+            GENERATED[id(const)] = (const, defs[const.co_name])
 
 
 def func_ast(f):
     code = f.__code__
+    gen = GENERATED.get(id(code))
+    if gen is not None and gen[0] is code:
+        return gen[1]
     k = (code.co_filename, code.co_firstlineno, code.co_name)
     if k not in _src_cache:
         try:
@@ -682,6 +696,9 @@ class Interp:
         if isinstance(f, types.FunctionType):
             if self.should_interpret(f, args, kwargs):
                 return self.run_function(f, args, kwargs)
+            mod0 = (getattr(f, "__module__", "") or "").split(".")[0]
+            if mod0 not in self.NEVER and f not in self.native and (has_sym(args) or (kwargs and has_sym(tuple(kwargs.values())))):
+                raise Unsupported(f"python function {getattr(f, '__qualname__', f)} has no retrievable source and got a symbolic argument")
             return self.call_native(f, args, kwargs)
         if isinstance(f, (staticmethod, classmethod)):
             return self.call(f.__func__, args, kwargs)
@@ -1012,9 +1029,8 @@ class Interp:
 
     def run_function(self, f, args, kwargs):
         node = func_ast(f)
-        self.funcs_seen[f.__module__ + "." + f.__qualname__] = _src_cache[
-            (f.__code__.co_filename, f.__code__.co_firstlineno, f.__code__.co_name)
-        ][1]
+        ck = (f.__code__.co_filename, f.__code__.co_firstlineno, f.__code__.co_name)
+        self.funcs_seen[str(f.__module__) + "." + f.__qualname__] = _src_cache[ck][1] if ck in _src_cache else "generated-at-run-time"
         env0 = Env(f.__globals__)
         if f.__closure__:
             for name, cell in zip(f.__code__.co_freevars, f.__closure__):
@@ -1031,12 +1047,16 @@ class Interp:
         env = Env(parent_env.globs, parent_env)
         a = node.args
         if fobj is not None:
-            sig = Interp._sig_cache.get(fobj)
-            if sig is None:
-                sig = Interp._sig_cache[fobj] = inspect.signature(fobj, follow_wrapped=False)
-            ba = sig.bind(*args, **kwargs)
-            ba.apply_defaults()
-            env.vars.update(ba.arguments)
+            try:
+                sig = Interp._sig_cache.get(fobj)
+                if sig is None:
+                    sig = Interp._sig_cache[fobj] = inspect.signature(fobj, follow_wrapped=False)
+                ba = sig.bind(*args, **kwargs)
+                ba.apply_defaults()
+                env.vars.update(ba.arguments)
+            except ValueError:
+                # generated code may use parameter names that are not identifiers
+                self.bind_closure_args(a, env, parent_env, args, kwargs)
             if args:
                 env.selfobj = args[0]
             env.is_func = True
@@ -1687,6 +1707,9 @@ class Interp:
             if isinstance(v, ast.Constant):
                 parts.append(v.value)
                 continue
+            if not isinstance(v, ast.FormattedValue):
+                # hand-built ASTs (werkzeug's URL builders) put bare expressions here
+                v = ast.FormattedValue(value=v, conversion=-1, format_spec=None)
             val = self.eval(v.value, env)
             spec = self.eval(v.format_spec, env) if v.format_spec else ""
             if is_sym(val):
